@@ -120,7 +120,13 @@ class StopRequests(Observer, _FalseFailureWatch):
                 not_waited = {w for w in where & asked if self._born(q.namespec, w) <= asked_at.get(w, -1)}
                 plan_t0 = min((r['t_us'] for r in self.requests if r['s'] == s.nick and r['inc'] == s.incarnation
                                and r['app'] == app_name and sim.now_us - r['t_us'] < 60 * US), default=sim.now_us)
-                skipped = {w for w in where if self._born(q.namespec, w) < plan_t0} if not asked else set()
+                if s.supvisors.fsm.state.name in ('RESTARTING', 'SHUTTING_DOWN'):
+                    # an ending plan is built for all the applications at once, when the state is entered
+                    plan_t0 = min(plan_t0, self.ending_view_t.get((s.nick, s.incarnation), plan_t0))
+                # ... and a copy whose first running event had not reached S when the plan was built (started by another
+                # requester a moment earlier) is unknown to the plan
+                skipped = {w for w in where if self._born(q.namespec, w) < plan_t0
+                           and self._known_at(s, q.namespec, w, self._born(q.namespec, w), plan_t0)} if not asked else set()
                 # given up on time-out: the forced STOPPED is applied locally before it is published (the next requests
                 # leave in between), so the requester's own forced state is read too
                 if (s.nick, s.incarnation, q.namespec) in self.forced_stopped or q.forced_state is not None:
@@ -173,6 +179,25 @@ class StopRequests(Observer, _FalseFailureWatch):
                't_us': sim.now_us, 'seq': seq}
         self.requests.append(rec)
         self.handler_reqs.setdefault((s.nick, s.incarnation), []).append(rec)
+
+    def _known_at(self, s, ns, ident, born_us, t_us):
+        """ Had a running-like event of this copy (born at born_us) been delivered to S by t_us? """
+        sim = self.sim
+        if ident == s.identifier:
+            return True
+        src = sim.by_identifier.get(ident)
+        group, _, name = ns.partition(':')
+        for r in reversed(sim.wire):
+            if r['t_us'] > t_us:
+                continue
+            if r['t_us'] < born_us:
+                break
+            if r['dst'] == s.nick and r['src'] == src and r.get('header') == 1 and r.get('outcome') == 'ok' \
+                    and r.get('comm_type') == 'SupvisorsPublication' and isinstance(r.get('body'), dict) \
+                    and r['body'].get('group') == group and r['body'].get('name') == name \
+                    and r['body'].get('state') in (10, 20, 30):
+                return True
+        return False
 
     def on_publication(self, sim, inst, ptype, body):
         from supvisors.ttypes import PublicationHeaders
